@@ -1,6 +1,82 @@
-From Coq Require Import List.
-From PG Require Import Graph.MGraph C01.Model.
-(* placeholder until the proofs land *)
-Theorem c01_placeholder : forall g X Y Z, msep_model g X Y Z = msep_model g X Y Z.
-Proof. reflexivity. Qed.
-Print Assumptions c01_placeholder.
+(* C01 — m_separated decides exactly the m-separation relation.  All theorems are unbounded (every graph, every query).
+   Vocabulary: C01/Spec.v (header), Graph/MSep.v (msep, mconn: m-connecting simple step-paths), Graph/Walks.v. *)
+From Coq Require Import List Arith Bool.
+From PG Require Import Base.ListSet Base.Closure Graph.MGraph Graph.MSep Graph.MSepDec Graph.Walks
+  C01.Model C01.Spec C01.Proofs C01.Examples.
+Import ListNotations.
+
+(* main clause: the model of m_separated answers True exactly when no m-connecting PATH joins X and Y *)
+Theorem msep_correct : forall g X Y Z,
+  acyclicb g = true -> (U g = [] \/ ancestral_und g) ->
+  incl X (V g) -> incl Z (V g) -> disjoint X Y -> disjoint X Z ->
+  (msep_model g X Y Z = Some true <-> msep g X Y Z).
+Proof. exact C01.Proofs.msep_correct. Qed.
+Print Assumptions msep_correct.
+
+(* the other answer: False exactly when some m-connecting path exists *)
+Theorem msep_correct_false : forall g X Y Z,
+  acyclicb g = true -> (U g = [] \/ ancestral_und g) ->
+  incl X (V g) -> incl Z (V g) -> disjoint X Y -> disjoint X Z ->
+  (msep_model g X Y Z = Some false <-> exists x y p, In x X /\ In y Y /\ mconn g Z x p y).
+Proof. exact C01.Proofs.msep_correct_false. Qed.
+Print Assumptions msep_correct_false.
+
+(* for EVERY graph with acyclic directed layer (no ancestral condition, X and Y may overlap): True <-> no open walk *)
+Theorem msep_correct_walk : forall g X Y Z,
+  acyclicb g = true -> incl X (V g) -> incl Z (V g) -> disjoint X Z ->
+  (msep_model g X Y Z = Some true <-> forall x y p, In x X -> In y Y -> ~ wconn g Z x p y).
+Proof. exact C01.Proofs.msep_correct_walk. Qed.
+Print Assumptions msep_correct_walk.
+
+(* swapping X and Y never changes the answer (including the raising case) *)
+Theorem msep_symmetric : forall g X Y Z,
+  (U g = [] \/ ancestral_und g) ->
+  incl X (V g) -> incl Y (V g) -> incl Z (V g) -> disjoint X Y -> disjoint X Z -> disjoint Y Z ->
+  msep_model g X Y Z = msep_model g Y X Z.
+Proof. exact C01.Proofs.msep_symmetric. Qed.
+Print Assumptions msep_symmetric.
+
+(* the guard: raises exactly when the directed layer has a cycle; the boolean test is the Prop *)
+Theorem msep_guard : forall g X Y Z, msep_model g X Y Z = None <-> exists v, dpl g v v.
+Proof. exact C01.Proofs.msep_guard_iff. Qed.
+Print Assumptions msep_guard.
+
+Theorem acyclicb_spec : forall g, acyclicb g = true <-> acyclic g.
+Proof. exact Walks.acyclicb_spec. Qed.
+Print Assumptions acyclicb_spec.
+
+(* the model agrees with the brute-force oracle on the whole domain *)
+Theorem msep_model_dec : forall g X Y Z,
+  acyclicb g = true -> (U g = [] \/ ancestral_und g) ->
+  incl X (V g) -> incl Z (V g) -> disjoint X Y -> disjoint X Z ->
+  msep_model g X Y Z = Some (msep_dec g X Y Z).
+Proof. exact C01.Proofs.msep_model_dec. Qed.
+Print Assumptions msep_model_dec.
+
+(* shared: the brute-force oracle reflects the Prop (used by the bounded theorems of other properties) *)
+Theorem msep_dec_spec : forall g X Y Z, incl Z (V g) -> (msep_dec g X Y Z = true <-> msep g X Y Z).
+Proof. exact MSepDec.msep_dec_spec. Qed.
+Print Assumptions msep_dec_spec.
+
+(* shared: an open walk contains an m-connecting path *)
+Theorem open_walk_to_path : forall g Z x y p, acyclic g -> ancestral_und g ->
+  x <> y -> steps_ok g x p -> last_node x p = y -> open_inner g Z p ->
+  exists p', mconn g Z x p' y /\ incl p' p.
+Proof. exact Walks.open_walk_to_path. Qed.
+Print Assumptions open_walk_to_path.
+
+(* shared: m-separation is symmetric *)
+Theorem msep_sym : forall g X Y Z, incl X (V g) -> incl Y (V g) -> (msep g X Y Z <-> msep g Y X Z).
+Proof. exact Walks.msep_sym. Qed.
+Print Assumptions msep_sym.
+
+(* non-vacuity: a 5-node ADMG with two edge types on one pair and an ancestral graph with an undirected edge meet
+   every hypothesis, with both outcomes *)
+Theorem msep_nonvacuous :
+  (wf g5 /\ acyclicb g5 = true /\ U g5 = []) /\ (wf gu /\ acyclicb gu = true /\ U gu <> [] /\ ancestral_und gu) /\
+  msep g5 [0] [3] [] /\ (exists x y p, In x [0] /\ In y [3] /\ mconn g5 [4] x p y) /\
+  msep gu [0] [3] [] /\ ~ msep gu [0] [3] [2].
+Proof.
+  exact (conj g5_class (conj gu_class (conj msep_nonvacuous_sep (conj msep_nonvacuous_conn msep_nonvacuous_und)))).
+Qed.
+Print Assumptions msep_nonvacuous.
